@@ -20,7 +20,7 @@ def run(patch):
     finally:
         shutil.rmtree(tmp, ignore_errors=True); shutil.rmtree(out, ignore_errors=True)
 
-with ThreadPoolExecutor(max_workers=5) as ex:
+with ThreadPoolExecutor(max_workers=int(os.environ.get("A10_WORKERS", "5"))) as ex:
     res = list(ex.map(run, sys.argv[1:]))
 n = 0
 for patch, st, bad in res:
